@@ -171,7 +171,7 @@ PROPS["C04"] = dict(
           "tree (keys: identifiers, arbitrary bytes, hostile constants; values: 22 scalar kinds, 17 typed slice kinds, 7 fallback kinds; groups at "
           "any position, possibly empty). Non-trivial: a hostile byte class in message/key/value (quote, backslash, CR/LF, control, ESC, invalid "
           "UTF-8, U+2028), or a group, or a non-string kind; distinct = the set of classes and kinds present."
-          " The logger is put into its format in four ways (Set...Mode, option of New, option of New on a child of a parent in another format, With...Mode method); flags are set through all public ways. A scratch record of a fixed menu (other format, multi-line, groups, nil last, background colour, own layout, child with context keys) may be printed right before the record (pooled printing contexts). Fallback kinds include []error, pointer to struct, map[string]any. The logger may have a (year-less, lossy) time layout of its own, which must govern the time field only; 1 of 80 messages is 70-300 KB long."),
+          " The logger is put into its format in four ways (Set...Mode, option of New, option of New on a child of a parent in another format, With...Mode method); flags are set through all public ways. A scratch record of a fixed menu (other format, multi-line, groups, nil last, background colour, own layout, child with context keys) may be printed right before the record (pooled printing contexts). Fallback kinds include []error, pointer to struct, map[string]any. The logger may have a (year-less, lossy) time layout of its own, which must govern the time field only; 1 of 80 messages is 70-300 KB long. Half of the records that are not written through are issued by a drawn public entry point able to carry the severity (verbs, Context verbs, Logit, Log, package-level functions on the default logger)."),
     assumptions=["encoding/json (with UseNumber, plus a UTF-8 validity check and a duplicate-name check) is the JSON judge"],
     stages=[
         dict(name="records", run="^TestJSONRecords$", quick=40000, thorough=1600000, shards=16, timeout_thorough=3000),
@@ -190,7 +190,7 @@ PROPS["C05"] = dict(
     note="Keys: non-empty, valid UTF-8, no space/'='/quote/control/'.'; reserved names excluded at every level; runs of blanks between pairs are accepted (statement: space-separated); nil may be printed as the bare placeholder <nil>.",
     rule=("as C04 with keys from the legal-logfmt class. Non-trivial: a group followed by at least one sibling in key order, or a hostile byte class "
           "in message/value, or a non-string kind, or a group; distinct = the set of classes and kinds present."
-          " The logger is put into its format in four ways (Set...Mode, option of New, option of New on a child of a parent in another format, With...Mode method); flags are set through all public ways. Scratch record, own time layout and huge messages as C04. The logger name may need quoting itself (quote + forged pair, LF, TAB, backslash, control byte, non-ASCII, blank, equals sign)."),
+          " The logger is put into its format in four ways (Set...Mode, option of New, option of New on a child of a parent in another format, With...Mode method); flags are set through all public ways. Scratch record, own time layout, huge messages and entry points as C04. The logger name may need quoting itself (quote + forged pair, LF, TAB, backslash, control byte, non-ASCII, blank, equals sign)."),
     assumptions=["strconv.Unquote is the inverse of the quoting the statement asks for", "production mode = harness binary run under a name not ending in .test"],
     stages=[
         dict(name="production", run="^TestLogfmtRecords$", mode="prod", quick=30000, thorough=800000, shards=16, timeout_thorough=3000),
@@ -210,7 +210,7 @@ PROPS["C07"] = dict(
     rule=("rapid draws the scenario; about half of the call lists have >= 13 entries (stability threshold of the sort). Non-trivial: at least two "
           "sources contribute the same key, or >= 13 attributes with a duplicate, or a parent contributes while the logging logger has no own "
           "attributes; distinct = (format, flag, context mode, class set, chain depth, number of source attributes)."
-          " A quarter of the scenarios give one shared Attrs value (spare capacity) to every logger through SetAttrs1; half emit a second record after attributes were added to a drawn logger of the chain, with another call list. Own attributes may also be set with SetAttrs1(slog.NewAttrs(args...)); a scratch record may be printed right before the record (as C04). Chain members may be made by WithSkip(1); ancestors may have a context key of their own with a value in the context (never printed)."),
+          " A quarter of the scenarios give one shared Attrs value (spare capacity) to every logger through SetAttrs1; half emit a second record after attributes were added to a drawn logger of the chain, with another call list. Own attributes may also be set with SetAttrs1(slog.NewAttrs(args...)); a scratch record may be printed right before the record (as C04). Chain members may be made by WithSkip(1); ancestors may have a context key of their own with a value in the context (never printed); the call is one of Info/Warn/Print/Println (method, Context variant, or the package-level function of that name on the default logger)."),
     assumptions=["merge order stated in the property: context < ancestors (outermost first) < own < call"],
     stages=[dict(name="assembly", run="^TestAssembly$", quick=25000, thorough=4000000, shards=16, timeout_thorough=3000)],
 )
